@@ -17,7 +17,7 @@ RULE = ('one case = one real `-T file --threads k` run over 2-3 scripted servers
         'plus gated 3-target runs with --threads 2 in both gate orders; thorough: all ordered triples, threads 1/2/3/32, every gate permutation, two hash seeds.  The in-process monitor records (thread, target, table pristine at entry) '
         'so the evidence lists the distinct "previous target on this thread -> this target" contexts actually produced.  Non-trivial: at least one target ran on a thread that had already served another target, or two targets ran concurrently; '
         'distinct = distinct (target list, threads, gate order, format)')
-REQUIRED = {'runs_with_extra_options': 8, 'targets_listed_twice': 6, 'default_port_entries': 6, 'multi_runs': 40, 'blocks_compared': 80, 'thread_reuse_contexts': 30, 'json_runs': 8, 'policy_runs': 4, 'gated_runs': 4, 'master_digest_checks': 40}
+REQUIRED = {'single_entry_files': 6, 'runs_with_extra_options': 8, 'targets_listed_twice': 6, 'default_port_entries': 6, 'multi_runs': 40, 'blocks_compared': 80, 'thread_reuse_contexts': 30, 'json_runs': 8, 'policy_runs': 4, 'gated_runs': 4, 'master_digest_checks': 40}
 ASSUMPTIONS = ['a per-target block is compared after removing the "(gen) target:" line and surrounding blank lines; a JSON element after removing "target"',
                'the table-pristine observation is diagnostic only: the verdict is decided on output equality']
 MANIFEST = {
@@ -65,6 +65,10 @@ def cases(tier, seed):
     for i, (a, b) in enumerate([('clean', 'rsa1024'), ('terrapin', 'clean'), ('gex1024', 'openssh-new')] if tier == 'quick' else list(itertools.permutations(['clean', 'rsa1024', 'terrapin', 'gex1024'], 2))):
         for th in (1, 2):
             cs.append({'kind': 'dup', 'targets': [a, b], 'threads': th, 'fmt': 'json' if (i + th) % 2 else 'text', 'layout': ['aba', 'aab', 'baa'][(i + th) % 3]})
+    # the smallest list there is: a targets file with a single entry still is a multi-target run of that one target
+    for i, a in enumerate(['clean', 'rsa1024', 'terrapin', 'ssh1'] if tier == 'quick' else A):
+        for th in (1, 2):
+            cs.append({'kind': 'seq', 'targets': [a], 'threads': th, 'fmt': 'json' if (i + th) % 2 else 'text', 'alone': True})
     pol_pairs = [('clean', 'rsa1024'), ('rsa1024', 'clean'), ('gex1024', 'clean'), ('clean', 'clean'), ('terrapin', 'cert-small-ca'), ('cert-small-ca', 'clean')]
     for i, (a, b) in enumerate(pol_pairs if tier == 'quick' else list(itertools.permutations([x for x in A if x not in ('ssh1', 'no-probes')], 2))):
         cs.append({'kind': 'policy', 'targets': [a, b], 'threads': 1 if i % 3 else 2, 'fmt': 'json' if i % 2 else 'text'})
@@ -219,7 +223,9 @@ def run_case(c):
         if v['key'] not in seen:
             seen.add(v['key'])
             uniq.append(v)
-    concurrent = c['threads'] > 1
+    concurrent = c['threads'] > 1 or c.get('alone')
+    if c.get('alone'):
+        counters['single_entry_files'] = 1
     return {'violations': uniq, 'counters': counters, 'nontrivial': (counters.get('thread_reuse_contexts', 0) > 0 or concurrent) and counters.get('blocks_compared', 0) > 0,
             'contexts': contexts, 'sample': {'case': c, 'thread_contexts': contexts, 'blocks_compared': counters.get('blocks_compared', 0), 'tables_dirty_at_entry': len(dirty_entries)}, 'sample_kind': c['kind'] + c['fmt']}
 
